@@ -29,5 +29,14 @@ PLAIN=()
 if [ "$REPO" != /repo ]; then PLAIN=(-overlay "$OUT/ov/plain.json"); fi
 go1.26 build "${PLAIN[@]}" -o "$OUT/vplugin" ./cmd/vplugin
 go1.26 test "${PLAIN[@]}" -c -vet=off -o "$OUT/e3.test" ./e3/
+# E3 once more with the toolchain that the repository's own go.mod selects (its suite and its users build with that one):
+# standard-library behaviour differs between toolchains (crypto/tls session resumption, for one)
+REPOGO=$(cd "$REPO" && env -u GOTOOLCHAIN go env GOVERSION 2>/dev/null || true)
+if [ -n "$REPOGO" ] && [ "$REPOGO" != "$(go1.26 env GOVERSION)" ]; then
+  mkdir -p "$OUT/old"
+  sed "s/^go 1\.26.*/go ${REPOGO#go}/; /^toolchain/d" go.mod > "$OUT/old/go.mod"; cp go.sum "$OUT/old/go.sum"
+  ( GOTOOLCHAIN=$REPOGO go build "${PLAIN[@]}" -modfile="$OUT/old/go.mod" -o "$OUT/old/vplugin" ./cmd/vplugin &&
+    GOTOOLCHAIN=$REPOGO go test "${PLAIN[@]}" -c -vet=off -modfile="$OUT/old/go.mod" -o "$OUT/old/e3.test" ./e3/ ) || { echo "build.sh: E3 build with $REPOGO failed" >&2; exit 1; }
+fi
 # R: the race pass (free-running bodies under the race detector, uninstrumented)
 go1.26 test "${PLAIN[@]}" -race -c -vet=off -o "$OUT/race.test" ./race/
